@@ -153,7 +153,7 @@ class Memo:
         key = (stage, mode)
         rows = []
         for o in outs:
-            a = np.ascontiguousarray(np.asarray(o))
+            a = np.ascontiguousarray(histsim.native(o))
             if a.ndim == 0 or a.shape[0] != len(idx):
                 raise Violation("c11.shape", f"op {opi} {stage}: batch of {len(idx)} events gave an output of shape {a.shape}", sig=f"{stage}:shape")
             rows.append(a.reshape(len(idx), -1).view(np.uint8).reshape(len(idx), -1))
@@ -406,6 +406,22 @@ def scn_history(ctx):
                 # another object of one of the stage classes comes to life (a second run's, say):
                 # the long-lived ones must not notice
                 which = ("radio", "taus", "eas", "geom", "too", "spec", "cloud")[ch.draw(7, "construct_which")]
+                how = ch.draw(4, "construct_how")
+                if how >= 2 and which in objs and which not in ("geom", "too"):
+                    # the long-lived object is replaced by a copy of itself (copy.deepcopy, or a pickle
+                    # round trip as when it is shipped to a worker): it must go on answering the same
+                    import copy
+                    import pickle
+
+                    try:
+                        objs[which] = copy.deepcopy(objs[which]) if how == 2 else pickle.loads(pickle.dumps(objs[which]))
+                        if which == "cloud":
+                            clouds.pop("config", None)
+                        ctx.probes["object_replaced_by_" + ("deepcopy" if how == 2 else "pickle_round_trip")] += 1
+                    except Exception:  # noqa: BLE001
+                        ctx.probes["object_copy_failed"] += 1
+                    ctx.log(f"op{opi} copy {which} how={how}")
+                    continue
                 other = FRESH[which]()
                 del other
                 ctx.probes["other_object_constructed"] += 1
